@@ -318,6 +318,8 @@ def evaluate(case):
     gaps = [[g for g in range(1, len(b)) if b[g - 1][1] != b[g][0]] for b in bins0]
 
     kwargs = {"axis": axis, "inplace": inplace}
+    if case.get("np_axis") and isinstance(axis, int) and not isinstance(axis, bool):
+        kwargs["axis"] = np.dtype(case["np_axis"]).type(axis)  # an index as numpy hands it out (np.argmax(h.shape))
     if has_minf:
         kwargs["min_frequency"] = case["minf"]
     if has_amount:
@@ -652,6 +654,10 @@ def amount_cases(unit, thorough, ci, combo):
                 for axis in (None, d - 1):
                     for inplace in (False, True):
                         yield {"cls": cls, "axes": axes, "content": content, "amount": am, "axis": axis, "inplace": inplace}
+            # numpy integer axis indices
+            for tname in ("int64", "int32", "uint8"):
+                for axis in range(d):
+                    yield {"cls": cls, "axes": axes, "content": content, "amount": 2, "axis": axis, "inplace": False, "np_axis": tname}
 
 
 def minf1_combos(unit, thorough):
